@@ -733,6 +733,24 @@ impl rustc_driver::Callbacks for Cb {
             out.push_str(&cx.body(def, body));
             out.push('\n');
             n += 1;
+            // promoted constants of this body (e.g. `&[0]`, `&F::_PYO3_DEF`): dumped as separate bodies named
+            // `<owner>::promoted[i]`
+            let promoted = tcx.promoted_mir(def);
+            for (pi, pbody) in promoted.iter_enumerated() {
+                let mut s = cx.body(def, pbody);
+                let owner = cx.path(def);
+                let from = format!("{{\"path\":{}", esc(&owner));
+                let to = format!("{{\"path\":{}", esc(&format!("{}::promoted[{}]", owner, pi.as_usize())));
+                if s.starts_with(&from) {
+                    s = format!("{}{}", to, &s[from.len()..]);
+                }
+                s = s.replacen("\"kind\":\"Fn\"", "\"kind\":\"Promoted\"", 1)
+                    .replacen("\"kind\":\"AssocFn\"", "\"kind\":\"Promoted\"", 1)
+                    .replacen("\"kind\":\"Closure\"", "\"kind\":\"Promoted\"", 1);
+                out.push_str(&s);
+                out.push('\n');
+                n += 1;
+            }
         }
         let cname = tcx.crate_name(LOCAL_CRATE).to_string();
         let file = format!("{}/{}.{}.jsonl", out_dir, cname, std::process::id());
